@@ -111,7 +111,8 @@ class C04(HeapCheck):
             cases.append({"uuid": strings[i:i + 50]})
         nx = 400 if tier == "quick" else 3000
         for _ in range(nx):
-            cases.append({"xops": GenX(random.Random(rng.randrange(1 << 60))).history()})
+            g = GenX(random.Random(rng.randrange(1 << 60)))
+            cases.append({"xops": g.history(), "q": hc.q_plan(g.rng)})
         return cases
 
     def impl(self, case):
@@ -119,7 +120,7 @@ class C04(HeapCheck):
             # clone (+ re-attach beside the original, names cleared or changed, ids copied), merge,
             # link, clean: executed as in C03 (which holds the model tie for them); here only the
             # oracle looks at the names and ids of every object after every operation
-            trace, done, skipped = run_history_x(case["xops"])
+            trace, done, skipped = run_history_x(case["xops"], case.get("q"))
             return {"x": True, "trace": trace, "done": done, "skipped": skipped}
         if "uuid" not in case:
             return HeapCheck.impl(self, case)
